@@ -172,6 +172,10 @@ impl Default for Limits {
         Limits { max_calls: 5_000_000, max_items: 2_000_000, extra_next: 0 }
     }
 }
+thread_local! {
+    /// when set, `drive` consumes the iterator with IVPIterator::collect_vec instead of next()
+    pub static USE_COLLECT_VEC: Cell<bool> = Cell::new(false);
+}
 
 fn drive<'a, D, S>(ctor: Result<S, IVPError>, ops: &[Op], y0: &[S::Field], f: S::Derivative, lim: &Limits, calls: &Cell<u64>) -> RunOut<S::Field>
 where
@@ -222,6 +226,23 @@ where
             return out;
         }
     };
+    if USE_COLLECT_VEC.with(|c| c.get()) {
+        match it.collect_vec() {
+            Ok(v) => {
+                out.items = v.into_iter().map(|(t, y)| (t, y.as_slice().to_vec())).collect();
+                out.end = End::Done;
+            }
+            Err(e) => {
+                let msg = match &e {
+                    IVPError::UserError(u) => u.to_string(),
+                    other => other.to_string(),
+                };
+                out.end = End::Err(classify(&e), msg);
+            }
+        }
+        out.calls = calls.get();
+        return out;
+    }
     loop {
         if out.items.len() >= lim.max_items {
             out.end = End::ItemCap;
